@@ -165,7 +165,10 @@ func (w *worker) load(state string) bool {
 		return true
 	}
 	t0 := time.Now()
-	defer func() { w.ck.ctx.Count("ms_in_state_load", time.Since(t0).Milliseconds()); w.ck.ctx.Count("state_loads", 1) }()
+	defer func() {
+		w.ck.ctx.Count("ms_in_state_load", time.Since(t0).Milliseconds())
+		w.ck.ctx.Count("state_loads", 1)
+	}()
 	for attempt := 0; attempt < 3; attempt++ {
 		if w.s != nil && !w.s.Alive() && w.last != nil {
 			// died after its last reply (or while idle): attribute to the last instance sent
